@@ -17,6 +17,7 @@ RecordOK ==
             /\ R.eqab = R.eqba /\ R.eqaa
             /\ (R.eqab => SameValue(Classify(R.a), Classify(R.b)))
             /\ (R.sametext => R.eqab)
+            /\ R.stable                  \* a parsed value owns its bytes: it still marshals to its JSON after the input buffer was reused
       [] R.op = "ref" -> R.ok          \* Ref/SoftRef marshal to the reference object and back
       [] R.op = "datavalue" -> R.roundtrip /\ (R.wrapped = Wrapped(R.j))
       [] R.op = "envelope" -> R.classes = 1 /\ R.cls = R.expect /\ R.decoded
